@@ -462,11 +462,7 @@ theorem cfeed_balance (st : St) (bytes : Bytes) (hi : SInv st) :
     rw [b2] at i1 i2
     refine ⟨by omega, i2, i3, i4.trans b4⟩
 
-/-- bytes of the script that arrive on descriptor 0 -/
-def inputOf : List Op → Bytes
-  | [] => []
-  | .cmd b :: r => b ++ inputOf r
-  | _ :: r => inputOf r
+/-! `inputOf` (the bytes that arrive on descriptor 0 before its EOF) is defined with the model, in `Nq.Spawn`. -/
 
 theorem set_none_same (l : List (Option Bytes)) (i : Nat) (h : l.getD i none = none) : l.set i none = l := by
   induction l generalizing i with
@@ -497,48 +493,191 @@ theorem childExit_balance (k : Kind) (st : St) (slot wstat : Nat) (hi : SInv st)
       omega
     · simp only [SInv, List.length_set]; exact hi
 
-theorem ostep_balance (k : Kind) (st : St) (op : Op) (hi : SInv st) (hr : st.reading = true) :
-    nReports (ostep k st op).2 + usedCount (ostep k st op).1 = usedCount st + countCmds st.stage (inputOf [op]) ∧
-    (ostep k st op).1.stage = stageAfter st.stage (inputOf [op]) ∧ SInv (ostep k st op).1 ∧ (ostep k st op).1.reading = true := by
+/-- `sigchld()` changes nothing but the bookkeeping of dead children: the slot stays in use -/
+theorem reap_facts (st : St) (slot wstat : Nat) :
+    (reap st slot wstat).slots = st.slots ∧ (reap st slot wstat).stage = st.stage ∧
+    (reap st slot wstat).reading = st.reading ∧ (reap st slot wstat).plan = st.plan := by
+  unfold reap
+  cases st.slots.getD slot none with
+  | none => exact ⟨rfl, rfl, rfl, rfl⟩
+  | some out =>
+    cases st.dead.getD slot none with
+    | none => exact ⟨rfl, rfl, rfl, rfl⟩
+    | some w => exact ⟨rfl, rfl, rfl, rfl⟩
+
+/-- the three shapes of `pipeEof` -/
+theorem pipeEof_cases (k : Kind) (st : St) (slot : Nat) :
+    (pipeEof k st slot = (st, []) ∧ (st.slots.getD slot none = none ∨ st.dead.getD slot none = none)) ∨
+    ∃ out ws, st.slots.getD slot none = some out ∧ st.dead.getD slot none = some ws ∧
+      pipeEof k st slot = ({ st with slots := st.slots.set slot none, dead := st.dead.set slot none },
+        [.report slot (reportBody k ws out)]) := by
+  unfold pipeEof
+  cases h1 : st.slots.getD slot none with
+  | none => exact Or.inl ⟨rfl, Or.inl rfl⟩
+  | some out =>
+    cases h2 : st.dead.getD slot none with
+    | none => exact Or.inl ⟨rfl, Or.inr rfl⟩
+    | some ws => exact Or.inr ⟨out, ws, rfl, rfl, rfl⟩
+
+/-- EOF on the pipe of a reaped child: one report, one slot released -/
+theorem pipeEof_balance (k : Kind) (st : St) (slot : Nat) (hi : SInv st) :
+    nReports (pipeEof k st slot).2 + usedCount (pipeEof k st slot).1 = usedCount st ∧
+    (pipeEof k st slot).1.stage = st.stage ∧ SInv (pipeEof k st slot).1 ∧
+    (pipeEof k st slot).1.reading = st.reading ∧ (pipeEof k st slot).1.plan = st.plan ∧
+    ((st.dead.getD slot none).isSome = true → (pipeEof k st slot).1.slots = st.slots.set slot none) := by
+  rcases pipeEof_cases k st slot with ⟨e, hn⟩ | ⟨out, ws, h1, h2, e⟩
+  · rw [e]
+    refine ⟨by simp [nReports, reportsOf], rfl, hi, rfl, rfl, ?_⟩
+    intro hd
+    rcases hn with hn | hn
+    · exact (set_none_same _ _ hn).symm
+    · rw [hn] at hd; cases hd
+  · rw [e]
+    have := usedCount_set_none st.slots slot out h1
+    refine ⟨?_, rfl, ?_, rfl, rfl, fun _ => rfl⟩
+    · simp only [nReports, reportsOf, usedCount, List.length_cons, List.length_nil] at this ⊢
+      omega
+    · simp only [SInv, List.length_set]; exact hi
+
+/-- the events on the children's side (output, death in one or two steps, EOF on the pipe) -/
+def childOp : Op → Bool
+  | .cmd _ => false
+  | .eof => false
+  | _ => true
+
+theorem inputOf_childOp (op : Op) (h : childOp op = true) : inputOf [op] = [] := by
+  cases op <;> simp [childOp] at h <;> rfl
+
+/-- a child-side event keeps  reports written + slots in use  and touches neither the command
+reader nor the end-of-input flag -/
+theorem childOp_balance (k : Kind) (st : St) (op : Op) (hi : SInv st) (hc : childOp op = true) :
+    nReports (ostep k st op).2 + usedCount (ostep k st op).1 = usedCount st ∧
+    (ostep k st op).1.stage = st.stage ∧ SInv (ostep k st op).1 ∧ (ostep k st op).1.reading = st.reading := by
   cases op with
-  | cmd bytes =>
-    obtain ⟨c1, c2, c3, c4⟩ := cfeed_balance st bytes hi
-    simp only [ostep, hr, if_true, inputOf, List.append_nil]
-    exact ⟨c1, c2, c3, c4.trans hr⟩
+  | cmd bytes => simp [childOp] at hc
+  | eof => simp [childOp] at hc
   | out slot bytes =>
-    simp only [inputOf, countCmds, stageAfter, Nat.add_zero]
     cases h : st.slots.getD slot none with
     | none =>
       have e : ostep k st (.out slot bytes) = (st, []) := by simp only [ostep, h]
-      rw [e]; exact ⟨by simp [nReports, reportsOf], rfl, hi, hr⟩
+      rw [e]; exact ⟨by simp [nReports, reportsOf], rfl, hi, rfl⟩
     | some out =>
       have e : ostep k st (.out slot bytes) =
           ({ st with slots := st.slots.set slot (some (accumulate k out bytes)) }, []) := by simp only [ostep, h]
       rw [e]
       have := usedCount_set_same st.slots slot out (accumulate k out bytes) h
-      refine ⟨?_, rfl, ?_, hr⟩
+      refine ⟨?_, rfl, ?_, rfl⟩
       · simp only [nReports, reportsOf, usedCount, List.length_nil, Nat.zero_add]; exact this
       · simp only [SInv, List.length_set]; exact hi
   | exit slot wstat =>
-    obtain ⟨c1, c2, c3, c4, _⟩ := childExit_balance k st slot wstat hi
-    simp only [ostep, inputOf, countCmds, stageAfter, Nat.add_zero]
+    by_cases hd : (st.dead.getD slot none).isSome = true
+    · have e : ostep k st (.exit slot wstat) = (st, []) := by simp only [ostep, hd, if_true]
+      rw [e]; exact ⟨by simp [nReports, reportsOf], rfl, hi, rfl⟩
+    · have e : ostep k st (.exit slot wstat) = childExit k st slot wstat := by
+        simp only [ostep, hd, Bool.false_eq_true, if_false]
+      rw [e]
+      obtain ⟨c1, c2, c3, c4, _⟩ := childExit_balance k st slot wstat hi
+      exact ⟨c1, c2, c3, c4⟩
+  | reap slot wstat =>
+    obtain ⟨r1, r2, r3, _⟩ := reap_facts st slot wstat
+    have e : ostep k st (.reap slot wstat) = (reap st slot wstat, []) := rfl
+    rw [e]
+    refine ⟨?_, r2, ?_, r3⟩
+    · simp only [nReports, reportsOf, usedCount, List.length_nil, Nat.zero_add, r1]
+    · simp only [SInv, r1]; exact hi
+  | peof slot =>
+    obtain ⟨p1, p2, p3, p4, _, _⟩ := pipeEof_balance k st slot hi
+    exact ⟨p1, p2, p3, p4⟩
+
+theorem ostep_balance (k : Kind) (st : St) (op : Op) (hi : SInv st) (hr : st.reading = true) (hne : op ≠ .eof) :
+    nReports (ostep k st op).2 + usedCount (ostep k st op).1 = usedCount st + countCmds st.stage (inputOf [op]) ∧
+    (ostep k st op).1.stage = stageAfter st.stage (inputOf [op]) ∧ SInv (ostep k st op).1 ∧ (ostep k st op).1.reading = true := by
+  by_cases hc : childOp op = true
+  · obtain ⟨c1, c2, c3, c4⟩ := childOp_balance k st op hi hc
+    rw [inputOf_childOp op hc]
+    simp only [countCmds, stageAfter, Nat.add_zero]
     exact ⟨c1, c2, c3, c4.trans hr⟩
+  · cases op with
+    | cmd bytes =>
+      obtain ⟨c1, c2, c3, c4⟩ := cfeed_balance st bytes hi
+      simp only [ostep, hr, if_true, inputOf, List.append_nil]
+      exact ⟨c1, c2, c3, c4.trans hr⟩
+    | eof => exact absurd rfl hne
+    | out slot bytes => simp [childOp] at hc
+    | exit slot wstat => simp [childOp] at hc
+    | reap slot wstat => simp [childOp] at hc
+    | peof slot => simp [childOp] at hc
 
-theorem inputOf_cons (op : Op) (r : List Op) : inputOf (op :: r) = inputOf [op] ++ inputOf r := by
-  cases op <;> simp [inputOf]
+/-- after the end of input: commands are no longer read, every event keeps the balance -/
+theorem ostep_closed (k : Kind) (st : St) (op : Op) (hi : SInv st) (hr : st.reading = false) :
+    nReports (ostep k st op).2 + usedCount (ostep k st op).1 = usedCount st ∧
+    SInv (ostep k st op).1 ∧ (ostep k st op).1.reading = false := by
+  by_cases hc : childOp op = true
+  · obtain ⟨c1, _, c3, c4⟩ := childOp_balance k st op hi hc
+    exact ⟨c1, c3, c4.trans hr⟩
+  · cases op with
+    | cmd bytes =>
+      have e : ostep k st (.cmd bytes) = (st, []) := by simp only [ostep, hr, Bool.false_eq_true, if_false]
+      rw [e]; exact ⟨by simp [nReports, reportsOf], hi, hr⟩
+    | eof =>
+      have e : ostep k st .eof = (stopReading st, []) := rfl
+      rw [e]; exact ⟨by simp [nReports, reportsOf, usedCount, stopReading], hi, rfl⟩
+    | out slot bytes => simp [childOp] at hc
+    | exit slot wstat => simp [childOp] at hc
+    | reap slot wstat => simp [childOp] at hc
+    | peof slot => simp [childOp] at hc
 
+theorem inputOf_cons (op : Op) (r : List Op) (hne : op ≠ .eof) : inputOf (op :: r) = inputOf [op] ++ inputOf r := by
+  cases op <;> simp [inputOf] at hne ⊢
+
+theorem orun_closed (k : Kind) (st : St) (ops : List Op) (hi : SInv st) (hr : st.reading = false) :
+    nReports (orun k st ops).2 + usedCount (orun k st ops).1 = usedCount st ∧
+    SInv (orun k st ops).1 ∧ (orun k st ops).1.reading = false := by
+  induction ops generalizing st with
+  | nil => simp [orun, nReports, reportsOf]; exact ⟨hi, hr⟩
+  | cons op r ih =>
+    obtain ⟨o1, o2, o3⟩ := ostep_closed k st op hi hr
+    obtain ⟨i1, i2, i3⟩ := ih (ostep k st op).1 o2 o3
+    simp only [orun, nReports_append]
+    exact ⟨by omega, i2, i3⟩
+
+/-- **the balance at every point of a session**: reports written + slots in use (running or reaped
+but not yet reported) = complete commands received before the end of input -/
 theorem orun_balance (k : Kind) (st : St) (ops : List Op) (hi : SInv st) (hr : st.reading = true) :
     nReports (orun k st ops).2 + usedCount (orun k st ops).1 = usedCount st + countCmds st.stage (inputOf ops) ∧
     SInv (orun k st ops).1 := by
   induction ops generalizing st with
   | nil => simp [orun, inputOf, countCmds, nReports, reportsOf]; exact hi
   | cons op r ih =>
-    obtain ⟨o1, o2, o3, o4⟩ := ostep_balance k st op hi hr
-    obtain ⟨i1, i2⟩ := ih (ostep k st op).1 o3 o4
-    rw [inputOf_cons, countCmds_append]
-    simp only [orun, nReports_append]
-    rw [o2] at i1
-    exact ⟨by omega, i2⟩
+    by_cases hne : op = .eof
+    · subst hne
+      have hi' : SInv (stopReading st) := hi
+      obtain ⟨c1, c2, _⟩ := orun_closed k (stopReading st) r hi' rfl
+      have e : orun k st (.eof :: r) = ((orun k (stopReading st) r).1, (orun k (stopReading st) r).2) := by
+        simp only [orun, ostep, List.nil_append]
+      rw [e]
+      have hu : usedCount (stopReading st) = usedCount st := rfl
+      simp only [inputOf, countCmds, Nat.add_zero]
+      exact ⟨by omega, c2⟩
+    · obtain ⟨o1, o2, o3, o4⟩ := ostep_balance k st op hi hr hne
+      obtain ⟨i1, i2⟩ := ih (ostep k st op).1 o3 o4
+      rw [inputOf_cons op r hne, countCmds_append]
+      simp only [orun, nReports_append]
+      rw [o2] at i1
+      exact ⟨by omega, i2⟩
+
+/-- the end of a slot at the end of the script -/
+theorem finish_balance (k : Kind) (st : St) (i : Nat) (hi : SInv st) :
+    nReports (finish k st i).2 + usedCount (finish k st i).1 = usedCount st ∧
+    SInv (finish k st i).1 ∧ (finish k st i).1.slots = st.slots.set i none := by
+  unfold finish
+  cases hd : st.dead.getD i none with
+  | none =>
+    obtain ⟨c1, _, c3, _, c5⟩ := childExit_balance k st i 0 hi
+    exact ⟨c1, c3, c5⟩
+  | some w =>
+    obtain ⟨p1, _, p3, _, _, p6⟩ := pipeEof_balance k st i hi
+    exact ⟨p1, p3, p6 (by rw [hd]; rfl)⟩
 
 /-- slots `i … i+fuel-1` cleared -/
 def clearRange : List (Option Bytes) → Nat → Nat → List (Option Bytes)
@@ -551,8 +690,8 @@ theorem drain_balance (k : Kind) (st : St) (fuel i : Nat) (hi : SInv st) :
   induction fuel generalizing st i with
   | zero => simp [drain, clearRange, nReports, reportsOf]
   | succ f ih =>
-    obtain ⟨c1, _, c3, _, c5⟩ := childExit_balance k st i 0 hi
-    obtain ⟨i1, i2⟩ := ih (childExit k st i 0).1 (i + 1) c3
+    obtain ⟨c1, c3, c5⟩ := finish_balance k st i hi
+    obtain ⟨i1, i2⟩ := ih (finish k st i).1 (i + 1) c3
     simp only [drain, nReports_append, clearRange]
     rw [c5] at i2
     exact ⟨by omega, i2⟩
@@ -634,5 +773,91 @@ theorem run_balance (k : Kind) (plan : List Nat) (script : List Op) :
   obtain ⟨hi, hu, hr, hs⟩ := init_facts plan
   unfold run
   exact runFrom_balance k _ script hi hr hu hs
+
+/-! ### the exit test of the main loop -/
+
+theorem getD_none_of_unused (l : List (Option Bytes)) (h : (l.filter Option.isSome).length = 0) (i : Nat) :
+    l.getD i none = none := by
+  induction l generalizing i with
+  | nil => rfl
+  | cons a r ih =>
+    cases a with
+    | some v => simp at h
+    | none =>
+      cases i with
+      | zero => rfl
+      | succ n =>
+        simp only [List.getD_cons_succ]
+        exact ih (by simpa using h) n
+
+theorem exited_iff (st : St) : exited st = true ↔ st.reading = false ∧ usedCount st = 0 := by
+  unfold exited
+  cases st.reading <;> simp
+
+/-- a slot in use — its child running, or reaped with the report still to be written — keeps the
+program alive after the end of input -/
+theorem not_exited_of_used (st : St) (i : Nat) (out : Bytes) (h : st.slots.getD i none = some out) :
+    exited st = false := by
+  cases he : exited st with
+  | false => rfl
+  | true =>
+    obtain ⟨_, hu⟩ := (exited_iff st).mp he
+    have := getD_none_of_unused st.slots hu i
+    rw [h] at this; cases this
+
+theorem stopReading_of_closed (st : St) (hr : st.reading = false) : stopReading st = st := by
+  cases st
+  simp only [stopReading] at hr ⊢
+  subst hr; rfl
+
+/-- once the exit test holds no event has any effect: leaving (`_exit(0)`) and going on are the same -/
+theorem ostep_exited (k : Kind) (st : St) (op : Op) (h : exited st = true) : ostep k st op = (st, []) := by
+  obtain ⟨hr, hu⟩ := (exited_iff st).mp h
+  have hn : ∀ i, st.slots.getD i none = none := getD_none_of_unused st.slots hu
+  cases op with
+  | cmd bytes => simp only [ostep, hr, Bool.false_eq_true, if_false]
+  | out slot bytes => simp only [ostep, hn slot]
+  | exit slot wstat =>
+    by_cases hd : (st.dead.getD slot none).isSome = true
+    · simp only [ostep, hd, if_true]
+    · simp only [ostep, hd, Bool.false_eq_true, if_false, childExit, hn slot]
+  | eof => simp only [ostep, stopReading_of_closed st hr]
+  | reap slot wstat => simp only [ostep, reap, hn slot]
+  | peof slot => simp only [ostep, pipeEof, hn slot]
+
+theorem orun_exited (k : Kind) (st : St) (ops : List Op) (h : exited st = true) : orun k st ops = (st, []) := by
+  induction ops with
+  | nil => rfl
+  | cons op r ih => simp only [orun, ostep_exited k st op h, ih, List.append_nil]
+
+/-- the events after the exit point (`consumed`) do not matter: the model that stops there, as the
+program does, and the model that runs the whole script agree -/
+theorem orun_take_consumed (k : Kind) (st : St) (ops : List Op) :
+    orun k st (ops.take (consumed k st ops)) = orun k st ops := by
+  induction ops generalizing st with
+  | nil => rfl
+  | cons op r ih =>
+    by_cases h : exited st = true
+    · simp only [consumed, h, if_true, List.take_zero]
+      rw [orun_exited k st _ h, orun_exited k st _ h]
+    · simp only [consumed, h, Bool.false_eq_true, if_false, List.take_succ_cons, orun, ih]
+
+theorem consumed_le (k : Kind) (st : St) (ops : List Op) : consumed k st ops ≤ ops.length := by
+  induction ops generalizing st with
+  | nil => exact Nat.le_refl _
+  | cons op r ih =>
+    by_cases h : exited st = true
+    · simp only [consumed, h, if_true]; exact Nat.zero_le _
+    · simp only [consumed, h, Bool.false_eq_true, if_false, List.length_cons]
+      exact Nat.succ_le_succ (ih _)
+
+/-- at every point of a run from the initial state -/
+theorem run_prefix_balance (k : Kind) (plan : List Nat) (ops : List Op) :
+    nReports (orun k { plan := plan } ops).2 + usedCount (orun k { plan := plan } ops).1 =
+      countCmds .delnum (inputOf ops) := by
+  obtain ⟨hi, hu, hr, hs⟩ := init_facts plan
+  obtain ⟨o1, _⟩ := orun_balance k _ ops hi hr
+  rw [hs, hu] at o1
+  omega
 
 end Nq.Lemmas.SpawnL
